@@ -1210,6 +1210,13 @@ func (a *Activation) frameField(key, ref string, st *State, rc string, pos token
 	}
 	x.oblige(a.oname("frame"), "store", rc, x.frame.allowsField(key, ref, x.alloc0), pos, nil, "store to "+key+" is inside the modifies clause")
 }
+func (a *Activation) frameFieldIf(key, ref, cond string, st *State, rc string, pos token.Pos) {
+	x := a.x
+	if !x.frame.has {
+		return
+	}
+	x.oblige(a.oname("frame"), "ghost", and(rc, cond), x.frame.allowsField(key, ref, x.alloc0), pos, nil, "ghost store to "+key+" is inside the modifies clause")
+}
 func (a *Activation) frameElems(arr string, st *State, rc string, pos token.Pos) {
 	x := a.x
 	if !x.frame.has {
@@ -2083,6 +2090,27 @@ func (a *Activation) ghostAt(anchor string, st *State, rc string, results []Val,
 				x.oblige("lemma", fmt.Sprintf("%s#%d:induction-step", strings.ReplaceAll(anchor, " ", "-"), nlem), rc, step, a.fn.Pos(), nil, g.Text)
 				c.Assume(implies(rc, fmt.Sprintf("(forall ((%s Int)) (=> (<= 0 %s) %s))", j, j, pj)))
 			}
+		case "mapelem":
+			obj := env.eval(g.X)
+			n := namedStruct(obj.T)
+			if n == nil {
+				efail("ghost assignment target %s is not a struct pointer", g.Text)
+			}
+			gf := x.ghostField(n, g.Field)
+			if gf == nil {
+				efail("ghost assignment to non-ghost field %s", g.Field)
+			}
+			key, elem, isMap := x.ghostKey(n, gf)
+			if !isMap {
+				efail("ghost field %s is not a map", g.Field)
+			}
+			a.frameFieldIf(key, obj.S, cond, st, rc, a.fn.Pos())
+			arr := x.fieldArr(st, key)
+			es := c.sortOf(elem)
+			k := env.evalInt(g.Idx)
+			v := env.eval(g.V)
+			row := sel(arr, obj.S)
+			st.fields[key] = c.Define("H_"+key, arrSort("Int", arrSort("Int", es)), store(arr, obj.S, ite(cond, store(row, k, v.S), row)))
 		case "field":
 			obj := env.eval(g.X)
 			n := namedStruct(obj.T)
@@ -2094,6 +2122,7 @@ func (a *Activation) ghostAt(anchor string, st *State, rc string, results []Val,
 				efail("ghost assignment to non-ghost field %s", g.Field)
 			}
 			key, elem, isMap := x.ghostKey(n, gf)
+			a.frameFieldIf(key, obj.S, cond, st, rc, a.fn.Pos())
 			arr := x.fieldArr(st, key)
 			var nv string
 			if isMap {
@@ -2151,6 +2180,14 @@ func (a *Activation) ghostAt(anchor string, st *State, rc string, results []Val,
 			body := ch.eval(lam.Lam.Body)
 			c.Assume(fmt.Sprintf("(forall ((%s Int)) (! (= (select %s %s) %s) :pattern ((select %s %s))))", r, nw, r, ite(cond, body.S, sel(old, r)), nw, r))
 			st.fields[key] = nw
+			if x.frame.has {
+				r2 := c.boundVar("r")
+				ch2 := lam.Lam.Env.child()
+				ch2.vars[b.Name] = scalar(lv.T, r2)
+				body2 := ch2.eval(lam.Lam.Body)
+				goal := fmt.Sprintf("(forall ((%s Int)) %s)", r2, implies(and(cond, not(eq(body2.S, sel(old, r2)))), x.frame.allowsField(key, r2, x.alloc0)))
+				x.oblige(a.oname("frame"), "ghost-bulk", rc, goal, a.fn.Pos(), nil, "bulk ghost update of "+key+" stays inside the modifies clause")
+			}
 		}
 	}
 }
